@@ -98,7 +98,7 @@ theorem C10_read_then_scan (s : State) (t₀ d : Nat) (h₀ : t₀ ≤ s.now) (h
   · rintro k ⟨m, st, e1, e2, e3, e4⟩; exact ⟨m, st, e1, e2, e3, by omega⟩
 
 /-- **No side effects**: the call changes no stored value, no stamp (the idle age of every entry it
-does not return keeps counting), not the iteration order, and no existing handle. -/
+does not return keeps counting), not the iteration order and not the clock. -/
 theorem C10_no_side_effect (s : State) (d : Nat) (hids : List Nat) (k : Nat) :
     absSt (expire s d hids).1 k = absSt s k ∧ (expire s d hids).1.order = s.order ∧ (expire s d hids).1.now = s.now := by
   unfold expire expireAt
@@ -108,21 +108,24 @@ theorem C10_no_side_effect (s : State) (d : Nat) (hids : List Nat) (k : Nat) :
     · exact ⟨rfl, rfl, rfl⟩
     · exact ⟨absSt_expireLoop _ k _ _ _ _, expireLoop_order _ _ _ _ _, expireLoop_now _ _ _ _ _⟩
 
-/-- The stamp of an entry only changes when a guard for that key is dropped (`stamp`) or stores a value:
-the idle age of an entry nobody locks keeps counting — across any schedule of other actions, clock
-ticks and expiry calls included — so repeated polling eventually returns every idle entry (`C10_exact`
-at the later state). -/
-theorem C10_age_keeps_counting (as : List Act) (k : Nat) : ∀ (s : State), Inv s →
-    (∀ a ∈ as, (∀ h op, a ≠ .gop h op) ∧ (∀ h, a ≠ .stamp h)) →
+/-- no guard method and no unlock stamp on a guard *of key `k`* along the run (anything may happen to other keys) -/
+def NoTouchOn (k : Nat) : State → List Act → Prop
+  | _, [] => True
+  | s, a :: as =>
+    ((∀ h op, a = .gop h op → hkey (s.hs h) ≠ some k) ∧ (∀ h, a = .stamp h → hkey (s.hs h) ≠ some k)) ∧
+      NoTouchOn k (step s a).1 as
+
+/-- The stamp of an entry only changes when a guard *for that key* is dropped (`stamp`) or stores a value: the idle age of an
+entry nobody locks keeps counting — across any schedule of other actions, including guard methods and unlocks on every other
+key, clock ticks and expiry calls — so a later expiry call finds it (`C10_exact_at` at the later state). -/
+theorem C10_age_keeps_counting (as : List Act) (k : Nat) : ∀ (s : State), Inv s → NoTouchOn k s as →
     absSt (run s as) k = absSt s k := by
   induction as with
   | nil => intro s _ _; rfl
   | cons a as ih =>
     intro s hi hne
-    have h1 : absSt (step s a).1 k = absSt s k :=
-      absSt_step s a k hi (fun h op e => absurd e ((hne a (by simp)).1 h op))
-        (fun h e => absurd e ((hne a (by simp)).2 h))
-    have h2 := ih (step s a).1 (inv_step s a hi) (fun b hb => hne b (List.mem_cons_of_mem _ hb))
+    have h1 := absSt_step s a k hi hne.1.1 hne.1.2
+    have h2 := ih (step s a).1 (inv_step s a hi) hne.2
     simp only [run, List.foldl] at h2 ⊢
     rw [h2, h1]
 
